@@ -370,6 +370,23 @@ Qed.
 
 End WithClose.
 
+(** both directions in one statement *)
+Theorem meshgrid_inverse (close : V -> V -> bool) (extras : list arr2) :
+  (forall x, close x x = true) ->
+  (forall e n : list V, e <> [] -> n <> [] ->
+     forallb (rect (length n) (length e)) extras = true ->
+     exists E N, meshgrid_from_1d e n extras = Some (E, N) /\
+                 meshgrid_to_1d close E N extras = Some (e, n)) /\
+  (forall (E N : arr2) e n, meshgrid_to_1d close E N extras = Some (e, n) ->
+     rows_equal_first E -> cols_equal_first N ->
+     meshgrid_from_1d e n extras = Some (E, N)).
+Proof.
+  intros Hrefl. split.
+  - intros e n He Hn Hx. exists (mesh_e e n), (mesh_n e n).
+    apply meshgrid_to_from_1d; assumption.
+  - intros E N e n. apply meshgrid_from_to_1d.
+Qed.
+
 (** ** make_xarray_grid *)
 
 Lemma check_names_Some count nm l :
@@ -726,6 +743,45 @@ Proof.
     + apply map_ext_in. intros p Hp. destruct (FX p Hp) as (v & -> & _ & Rv).
       cbn [coord_values coord_cell]. apply (nth_error_ravel _ _ _ _ Rv Hk).
     + apply map_ext_in. intros p Hp. apply (nth_error_ravel _ _ _ _ (proj2 (FV p Hp)) Hk).
+Qed.
+
+(** ** The decidable table statement is what [table_rows] establishes: the
+    model's own output satisfies it on every aligned grid *)
+
+Lemma list_eqb_refl {A} (eqb : A -> A -> bool) (l : list A) :
+  (forall x, eqb x x = true) -> list_eqb eqb l l = true.
+Proof. intros H. induction l as [|x l IH]; cbn; [reflexivity|]. rewrite H, IH. reflexivity. Qed.
+
+Lemma dims_eqb_refl d : dims_eqb d d = true.
+Proof. unfold dims_eqb. rewrite !String.eqb_refl. reflexivity. Qed.
+
+Theorem table_holds_model (g : grid V) d0 d1 (north east : list V) :
+  aligned_grid g d0 d1 north east ->
+  table_holds veqb g (grid_to_table g) = true.
+Proof.
+  intros Hal. pose proof Hal as ((nm & v0 & rest & Hv & Hd0) & Hn & He & FV & FC).
+  destruct (table_rows _ _ _ _ _ Hal) as (t & Ht & Hnames & Hlen & Hrows).
+  rewrite Ht. unfold table_holds. rewrite Hv. cbv beta iota.
+  rewrite Hd0. cbn [fst snd]. rewrite Hn, He. rewrite <- Hv.
+  rewrite Hnames.
+  apply andb_true_iff. split; [apply andb_true_iff; split|].
+  - apply list_eqb_refl. apply String.eqb_refl.
+  - apply forallb_forall. intros c Hc. rewrite Forall_forall in Hlen.
+    apply Nat.eqb_eq. apply Hlen. exact Hc.
+  - apply forallb_forall. intros k Hk. apply in_seq in Hk.
+    rewrite Hrows by lia.
+    assert (E1: map (fun p : string * coord V => coord_at d0 d1 (snd p) (k / length east) (k mod length east))
+                  (filter (is_extra d0 d1) (grid_coords g))
+              = map (fun p => coord_cell (snd p) (k / length east) (k mod length east))
+                  (filter (is_extra d0 d1) (grid_coords g))).
+    { apply map_ext_in. intros p Hp. apply filter_In in Hp as [Hp1 Hp2].
+      rewrite Forall_forall in FC. destruct (FC p Hp1 Hp2) as (v & -> & Hdv & _).
+      cbn [coord_at coord_cell]. unfold value_at. rewrite Hdv, dims_eqb_refl. reflexivity. }
+    assert (E2: map (fun p : string * var2 V => value_at d0 d1 (snd p) (k / length east) (k mod length east)) (grid_vars g)
+              = map (fun p => cell (v_rows (snd p)) (k / length east) (k mod length east)) (grid_vars g)).
+    { apply map_ext_in. intros p Hp. rewrite Forall_forall in FV. destruct (FV p Hp) as [Hdv _].
+      unfold value_at. rewrite Hdv, dims_eqb_refl. reflexivity. }
+    rewrite E1, E2. apply list_eqb_refl. intros [x|]; cbn; [apply veqb_spec; reflexivity|reflexivity].
 Qed.
 
 (** ** arrays -> grid -> table *)
